@@ -65,6 +65,78 @@ fn compare_runs(rep: &mut Report, runs: &[Result<Vec<String>, String>], kind: &s
     rep.fingerprints.insert(fp_str(&sha(first)));
 }
 
+/// Replays a recorded witness: the program of the witness run solo on a thread that never hosted an instance, and
+/// again in the mode that differed (twin, interleaved with a third instance, after other instances, fresh thread;
+/// staking / bank programs fresh vs used thread). Process and Miri witnesses name a seed only: they are re-run by the
+/// check itself with that VERIF_SEED.
+pub fn replay(ctx: &Ctx, w: &serde_json::Value) -> Report {
+    let mut rep = Report::new();
+    let mode = w["mode"].as_str().unwrap_or("");
+    let i = w["history"].as_u64().unwrap_or(0);
+    match mode {
+        "twin" | "interleaved" | "after-foreign-instance" | "fresh-thread" => {
+            let case: crate::engines::e1_chain::Case = match serde_json::from_value(w["case"].clone()) {
+                Ok(c) => c,
+                Err(e) => {
+                    rep.inconclusive.push(format!("the witness carries no program to replay: {}", e));
+                    return rep;
+                }
+            };
+            let solo = match on_fresh_thread(|| chain_replay(&case)) {
+                Ok(t) => t,
+                Err(p) => {
+                    rep.violate("C19", "fresh-instance-panics-where-earlier-identical-instances-worked", p.clone(), json!({"engine": "e7", "mode": mode, "history": i, "case": case, "panic": p}));
+                    return rep;
+                }
+            };
+            rep.evaluations += 1;
+            let wk = i % ctx.workers.max(1) as u64;
+            match mode {
+                "twin" | "fresh-thread" => {
+                    let again = chain_replay(&case);
+                    if again != solo {
+                        rep.violate("C19", "twin-instance-transcript-differs", first_diff(&solo, &again), json!({"engine": "e7", "mode": mode, "history": i, "case": case}));
+                    }
+                }
+                "interleaved" => {
+                    let (ta, tb, _) = chain_interleaved(&case, derive(ctx.seed, "noise", wk, i));
+                    if ta != solo || tb != solo {
+                        let which = if ta != solo { &ta } else { &tb };
+                        rep.violate("C19", "interleaved-instance-transcript-differs", first_diff(&solo, which), json!({"engine": "e7", "mode": mode, "history": i, "case": case}));
+                    }
+                }
+                _ => {
+                    let fseed = w["foreign_seed"].as_u64().unwrap_or_else(|| derive(ctx.seed, "foreign", wk, i));
+                    match chain_after_foreign(&case, fseed) {
+                        Ok(tf) if tf == solo => {}
+                        Ok(tf) => rep.violate("C19", "transcript-depends-on-an-earlier-differently-configured-instance", first_diff(&solo, &tf), json!({"engine": "e7", "mode": mode, "history": i, "foreign_seed": fseed, "case": case})),
+                        Err(p) if p.starts_with("while replaying") && panic_in_repo(&p) => rep.violate("C19", "instance-panics-after-other-instances-were-used", p.clone(), json!({"engine": "e7", "mode": mode, "history": i, "foreign_seed": fseed, "case": case, "panic": p})),
+                        Err(p) => rep.inconclusive.push(format!("after-foreign-instance replay: {}", p)),
+                    }
+                }
+            }
+        }
+        "twin-staking" => match serde_json::from_value::<crate::engines::e4_staking::Case>(w["case"].clone()) {
+            Ok(sc) => {
+                let runs = [on_fresh_thread(|| staking_transcript(&sc)), catch(|| staking_transcript(&sc)), catch(|| staking_transcript(&sc))];
+                rep.evaluations += 1;
+                compare_runs(&mut rep, &runs, "staking", i, json!(sc));
+            }
+            Err(e) => rep.inconclusive.push(format!("the witness carries no program to replay: {}", e)),
+        },
+        "twin-bank" => match serde_json::from_value::<crate::engines::e3_bank::Case>(w["case"].clone()) {
+            Ok(bc) => {
+                let runs = [on_fresh_thread(|| bank_transcript(&bc)), catch(|| bank_transcript(&bc)), catch(|| bank_transcript(&bc))];
+                rep.evaluations += 1;
+                compare_runs(&mut rep, &runs, "bank", i, json!(bc));
+            }
+            Err(e) => rep.inconclusive.push(format!("the witness carries no program to replay: {}", e)),
+        },
+        other => rep.inconclusive.push(format!("witnesses of mode {:?} name a seed only: re-run the check with that VERIF_SEED", other)),
+    }
+    rep
+}
+
 fn parse_digests(out: &str) -> Vec<String> {
     out.lines().filter_map(|l| l.strip_prefix("DIGEST ").map(|s| s.to_string())).collect()
 }
@@ -156,10 +228,13 @@ pub fn run(ctx: &Ctx) -> Report {
                 rep.violate("C19", "interleaved-instance-transcript-differs", first_diff(&solo, which), json!({"engine": "e7", "mode": "interleaved", "history": i, "case": case}));
             }
             if i % 4 == 0 {
-                let tf = chain_after_foreign(&case, derive(seed, "foreign", w as u64, i));
+                let fseed = derive(seed, "foreign", w as u64, i);
                 rep.bump("c19/chain/after_foreign_instance_compared");
-                if tf != solo {
-                    rep.violate("C19", "transcript-depends-on-an-earlier-differently-configured-instance", first_diff(&solo, &tf), json!({"engine": "e7", "mode": "after-foreign-instance", "history": i, "case": case}));
+                match chain_after_foreign(&case, fseed) {
+                    Ok(tf) if tf == solo => {}
+                    Ok(tf) => rep.violate("C19", "transcript-depends-on-an-earlier-differently-configured-instance", first_diff(&solo, &tf), json!({"engine": "e7", "mode": "after-foreign-instance", "history": i, "foreign_seed": fseed, "case": case})),
+                    Err(p) if p.starts_with("while replaying") && panic_in_repo(&p) => rep.violate("C19", "instance-panics-after-other-instances-were-used", p.clone(), json!({"engine": "e7", "mode": "after-foreign-instance", "history": i, "foreign_seed": fseed, "case": case, "panic": p})),
+                    Err(p) => rep.inconclusive.push(format!("C19 after-foreign-instance run of history {} (foreign seed {}): {}", i, fseed, p)),
                 }
             }
             if i % 4 == 2 {
